@@ -62,8 +62,13 @@ def gen(prop, stream, tier, avoid):
             if op["nu"] == op["nv"]:
                 op["nv"] += 1
             op["w"] = rng.randint(2, 16) / 4.0
+        if k in ("set_ptsw", "set_pts", "set_weights"):
+            op["seq"] = rng.pick(["list", "list", "tuple"])          # sequence type the caller hands to the setter
+            if k == "set_ptsw" and kind == "surface" and rng.chance(0.3):
+                op["via2d"] = True                                   # through the 2-dimensional view (surface.ctrlpts2d = rows)
         if k in ("set_ptsw", "set_pts", "set_weights") and rng.chance(knobs["reject_p"]):
             op["reject"] = rng.pick(["length", "dimension"])
+            op.pop("via2d", None)
         ops.append(op)
     return {"knobs": knobs, "objects": [spec], "ops": ops}
 
@@ -134,6 +139,9 @@ def run(script, ctx):
             newP = shapes.gen_points(rng, n, dim)
             newW = shapes.gen_weights(rng, n, unit_chance=0.05)
             rej = op.get("reject")
+            tup = op.get("seq") == "tuple"
+            if tup:
+                ctx.probe("setter_given_tuples")
             try:
                 if k == "set_ptsw":
                     val = [[c * w for c in p] + [w] for p, w in zip(newP, newW)]
@@ -141,7 +149,12 @@ def run(script, ctx):
                         val = val[:-1]
                     elif rej == "dimension":
                         val[n // 2] = val[n // 2][:-2]
-                    obj.ctrlptsw = val
+                    if op.get("via2d") and nd == 2 and not rej:
+                        rows = [[val[v + u * sizes[1]] for v in range(sizes[1])] for u in range(sizes[0])]
+                        obj.ctrlpts2d = tuple(tuple(tuple(q) for q in r) for r in rows) if tup else rows
+                        ctx.probe("set_through_ctrlpts2d")
+                    else:
+                        obj.ctrlptsw = tuple(tuple(q) for q in val) if tup else val
                     if not rej:
                         P, W = newP, newW
                 elif k == "set_pts":
@@ -150,14 +163,14 @@ def run(script, ctx):
                         val = val[:-1]
                     elif rej == "dimension":
                         val = [p + [1.0, 2.0] for p in val]
-                    obj.ctrlpts = val
+                    obj.ctrlpts = tuple(tuple(q) for q in val) if tup else val
                     if not rej:
                         P = newP
                 else:
                     val = newW
                     if rej:
                         val = val + [1.0]
-                    obj.weights = val
+                    obj.weights = tuple(val) if tup else val
                     if not rej:
                         W = newW
                 if rej:
